@@ -49,7 +49,7 @@ CHECKS = {
         level="exploration",
         groups=[
             G("^TestC04_Untrusted$", 20000, 100000),
-            G("^TestC04_(Corpus|AllocRatio)$", 1, 1, shard=False),
+            G("^TestC04_(Corpus|AllocRatio|CountSweep)$", 1, 1, shard=False),
         ],
         fuzz=[("FuzzUnmarshal", 90), ("FuzzDecodeDir", 60)],
         rule="valid encoding of a random message of any kind (or of a stat record for DecodeDir) with 1-3 mutations: any length/count field "
@@ -81,7 +81,7 @@ CHECKS = {
              "stream ending mid-frame; msize in [24, 8192] boundary-dense; the connection hands the bytes out in generated chunk sizes (1-byte reads, splits "
              "inside the length prefix, large reads). Oracle: per frame, the reference decoder applied to that frame's own bytes and msize (absolute), and the "
              "same frame alone on a fresh channel (isolation). Non-trivial = a non-first frame follows a frame of a different class, or reads split the length prefix.",
-        require_classes=dict(quick=["f_valid", "f_fill", "f_oversize", "f_garbage", "f_short", "f_tiny", "f_badprefix", "f_cutstream", "split_prefix", "after_setmsize"], thorough=[]),
+        require_classes=dict(quick=["f_valid", "f_fill", "f_oversize", "f_garbage", "f_short", "f_tiny", "f_badprefix", "f_cutstream", "split_prefix", "after_setmsize", "setmsize_between_reads"], thorough=[]),
         assumptions=["after an impossible length prefix (0..3) or a premature end of stream nothing further is asserted (the position of the next frame is undefined)",
                      "the reference decoder (refwire.Decode) defines which bodies are decodable; it agrees with the library on millions of fuzzed inputs (C01 FuzzDecodeVsRef)"],
     ),
